@@ -268,12 +268,56 @@ def strat_kauto(tier):
       order=st.one_of(*([st.none(), st.integers(len(blk), len(blk) + 2)]
                         + w(st.integers(1, len(blk) - 1), 3))),
       name=st.sampled_from(_KAUTO + ["kautocor"] * 3), how=st.sampled_from(["attr", "item"]),
-      seq=st.sampled_from(["list", "tuple"]),
+      seq=st.sampled_from(["list", "tuple", "deque maxlen", "deque maxlen"]),
       pert=st.lists(qs(-2, 2, 4), min_size=1, max_size=3),
       # the equations are homogeneous: the same block at any amplitude has the same predictor;
       # very quiet and very loud blocks are legitimate inputs (no "silence" threshold)
       scale=st.sampled_from([1, 1, 1, Fraction(1, 10 ** 7), Fraction(1, 3 * 10 ** 9), 10 ** 6, Fraction(1, 2 ** 40)]),
       kw=st.booleans())))
+
+
+def _seq(kind, blk):
+  """The block as list / tuple / deque; "deque maxlen" is what blocks() hands out (maxlen == size)."""
+  from collections import deque
+  return {"tuple": tuple, "list": list, "deque": deque,
+          "deque maxlen": lambda b: deque(b, maxlen=len(b))}[kind](blk)
+
+
+def strat_large(tier):
+  return st.fixed_dictionaries(dict(
+    n=st.integers(100, 260), lag=st.integers(6, 16), seed=st.lists(st.integers(-9, 9), min_size=7, max_size=11),
+    seq=st.sampled_from(["list", "tuple", "deque maxlen"]), order=st.integers(2, 4)))
+
+
+def run_large(case):
+  n, lag = case["n"], case["lag"]
+  sd = case["seed"]
+  if not any(sd):
+    sd = [1] + sd[1:]
+  # a deterministic pseudo-signal of small exact rationals built from the seed values
+  x = [Fraction(sd[i % len(sd)] * ((i * 7 + 3) % 11 - 5) + (i % 3), 4) for i in range(n)]
+  arg = _seq(case["seq"], [Q(v) for v in x])
+  got = acorr(arg, lag)
+  if [fr(v) for v in got] != acorr_ref(x, lag):
+    raise Violation("acorr of a %d-sample block, max_lag %d, is not the table of lagged products" % (n, lag))
+  got = lag_matrix(_seq(case["seq"], [Q(v) for v in x]), lag)
+  exp = lagm_ref(x, lag)
+  for i in range(lag + 1):
+    for j in range(lag + 1):
+      if fr(got[i][j]) != exp[i][j]:
+        raise Violation("lag_matrix of a %d-sample block, max_lag %d: entry [%d][%d] is %r, the defining sum gives %r"
+                        % (n, lag, i, j, got[i][j], exp[i][j]))
+  p = case["order"]
+  try:
+    filt = lpc.kcovar(_seq(case["seq"], [Q(v) for v in x]), p)
+  except (ValueError, ZeroDivisionError):
+    return {"nontrivial": True, "labels": ["kcovar raised"]}
+  a = coeffs_of(filt, p, "lpc.kcovar on a long block")
+  phi = lagm_ref(x, p)
+  for i in range(1, p + 1):
+    if sum(a[j] * phi[i][j] for j in range(p + 1)) != 0:
+      raise Violation("lpc.kcovar on a %d-sample block, order %d: covariance normal equation %d is not satisfied" % (n, p, i))
+  return {"nontrivial": True, "labels": ["kcovar returned", "seq:" + case["seq"]]}
 
 
 def conv_energy(a, x):
@@ -292,7 +336,7 @@ def run_kauto(case):
   order = case["order"]
   p = n - 1 if order is None else order
   f = _strategy(case["name"], case["how"])
-  arg = tuple(case["blk"]) if case["seq"] == "tuple" else list(case["blk"])
+  arg = _seq(case["seq"], case["blk"])
   what = "lpc.%s(%s%s)" % (case["name"], show(x), "" if order is None else ", %d" % order)
   labels = ["order:default" if order is None else ("order>=len" if order >= n else "order<len")]
   rr = acorr_ref(x, p)
@@ -356,7 +400,7 @@ def strat_kcovar(tier):
       blk=st.just(blk),
       order=st.one_of(*(w(low, 3) + [st.integers(1, n - 1), st.none()])),
       name=st.sampled_from(_KCOV + ["kcovar"] * 3), how=st.sampled_from(["attr", "item"]),
-      seq=st.sampled_from(["list", "tuple"]), kw=st.booleans()))
+      seq=st.sampled_from(["list", "tuple", "deque maxlen"]), kw=st.booleans()))
   fixed = st.integers(6, lmax).flatmap(lambda n: st.lists(_sample, min_size=n, max_size=n))
   return st.one_of(*([st.lists(_sample, min_size=3, max_size=lmax)] + w(fixed, 2))).flatmap(withorder)
 
@@ -381,7 +425,7 @@ def run_kcovar(case):
   order = case["order"]
   p = n - 1 if order is None else order
   f = _strategy(case["name"], case["how"])
-  arg = tuple(case["blk"]) if case["seq"] == "tuple" else list(case["blk"])
+  arg = _seq(case["seq"], case["blk"])
   what = "lpc.%s(%s%s)" % (case["name"], show(x), "" if order is None else ", %d" % order)
   phi = lagm_ref(x, p)
   pred, at = kcovar_prediction(phi, p)
@@ -425,12 +469,12 @@ def strat_tables(tier):
   def ac(blk):
     return st.fixed_dictionaries(dict(fn=st.just("acorr"), blk=st.just(blk),
                                       lag=st.one_of(st.none(), st.integers(0, len(blk) + 3)),
-                                      seq=st.sampled_from(["list", "tuple"]), kw=st.booleans()))
+                                      seq=st.sampled_from(["list", "tuple", "deque", "deque maxlen"]), kw=st.booleans()))
 
   def lm(blk):
     return st.fixed_dictionaries(dict(fn=st.just("lag_matrix"), blk=st.just(blk),
                                       lag=st.one_of(st.none(), st.integers(0, len(blk) - 1)),
-                                      seq=st.sampled_from(["list", "tuple"]), kw=st.booleans()))
+                                      seq=st.sampled_from(["list", "tuple", "deque", "deque maxlen"]), kw=st.booleans()))
   nums = st.lists(st.one_of(qs(), qs(-3, 3, 4), st.integers(-4, 4)), min_size=1, max_size=lmax)
   return st.one_of(
     nums.flatmap(ac), nums.flatmap(lm),
@@ -442,7 +486,10 @@ def strat_tables(tier):
 def run_tables(case):
   fn = case["fn"]
   blk = case["blk"]
-  arg = tuple(blk) if case["seq"] == "tuple" else list(blk)
+  from collections import deque
+  # "deque maxlen" is what Stream.blocks() / blocks() hand out: a full deque with maxlen == size
+  arg = {"tuple": tuple, "list": list, "deque": deque,
+         "deque maxlen": lambda b: deque(b, maxlen=len(b))}[case["seq"]](blk)
   n = len(blk)
   if fn == "toeplitz":
     got = toeplitz(arg)
@@ -503,6 +550,9 @@ CLAUSES = [
          floors={"returned": .2, "returned order>=2": .08},
          doc="lpc.kcovar when it returns: covariance normal equations and error = residual "
              "energy over n >= p"),
+  Clause("large_tables", strat_large, run_large, quick=24, thorough=300,
+         doc="acorr / lag_matrix on blocks of 100..260 samples with lags 6..16 (tables far larger than any small-size "
+             "code path) still equal their defining sums; kcovar on such a block satisfies its normal equations"),
   Clause("tables", strat_tables, run_tables, quick=1000, thorough=15000,
          floors={"acorr": .1, "lag_matrix": .1, "toeplitz": .06, "lag>=len": .02},
          doc="acorr / lag_matrix / toeplitz equal their defining sums / table"),
